@@ -706,7 +706,7 @@ def judge(cfg, seq):
         bad('unterminated-line', 'output does not end with a newline')
     table = dict.fromkeys(targets, hy.NONE)
     ref = hy.Hysteresis(cfg['rise'], cfg['fall'], cfg['wod'])
-    blind = False  # a refused line makes the peer-side posture unknowable for the rest of the run
+    blind = False  # a refused / stray / unclassifiable line makes the peer-side posture unknowable: stop judging the run there
     trace = []
     states = set()
 
@@ -721,6 +721,7 @@ def judge(cfg, seq):
             for kind, target, cands, off, fields in items:
                 if kind == 'stray':
                     bad('unexpected-target', f'{where}: {line!r} touches {wire.nlri_str(target[1])} on peer {target[0]}, which the configuration does not select')
+                    blind = True
                     continue
                 cur = table[target]
                 if kind == 'W':
@@ -728,6 +729,7 @@ def judge(cfg, seq):
                 elif not cands:
                     bad('wrong-attributes:' + '+'.join(off),
                         f'{where}: {line!r} reaches peer {target[0]} as {_show(fields)}: matches no state of the configuration (nearest differs in {list(off)})')
+                    blind = True
                     continue
                 elif cur in cands:
                     new = cur
@@ -866,6 +868,10 @@ def run(ctx: core.Ctx) -> None:
     ctx.coverage_extra['depth'] = depth
     ctx.coverage_extra['configurations'] = len(cfgs)
     ctx.coverage_extra['distinct_api_lines'] = len(lines)
+    if ctx.counters.get('runs_blind_after_refused_line'):
+        ctx.coverage_extra['not_judged'] = ('%d runs were judged only up to the first line the daemon side refuses (see known finding): the '
+                                            'peer-side posture is unknowable after it, so hysteresis and exit clauses are not evaluated for '
+                                            'the rest of such a run' % ctx.counters['runs_blind_after_refused_line'])
     for c in (cfgs[5], cfgs[-2]):
         seq = (OK, OK, OK, FAIL, DIS, OK)[: max(1, min(6, depth))]
         res = _harness().run(c, seq)
